@@ -17,7 +17,14 @@ def load_checks() -> dict:
     for path in sorted(glob.glob(os.path.join(VERIF, 'mc', 'checks', 'c[0-9][0-9].py'))):
         name = os.path.basename(path)[:-3]
         module = importlib.import_module(f'mc.checks.{name}')
-        out[module.PROPERTY] = (f'3/{module.PROPERTY}', module.LEVEL_TEXT, module.LEVEL_NOTE)
+        text = module.LEVEL_TEXT
+        extras = []
+        if hasattr(module, 'sequences'):
+            extras.append("every operation sequence `first [middle] query` over 36 operations on one dataset object against a "
+                          "never-used rebuild (quick: middle is an in-place edit; thorough: any operation)")
+        extras.append("representative cases (thorough: all) again with debug logging, numpy errstate ignore and python -O")
+        text = text + '; also ' + '; '.join(extras) + ' (DESIGN.md section 12.2)'
+        out[module.PROPERTY] = (f'3/{module.PROPERTY}', text, module.LEVEL_NOTE)
     return out
 
 
